@@ -1359,8 +1359,11 @@ func (p *PubSub) announceRetry(pid peer.ID, topic string, sub bool) {
 	retry := func() {
 		_, okSubs := p.mySubs[topic]
 		_, okRelays := p.myRelays[topic]
+		// subscriptions on a fanout-only topic are never announced
+		t := p.myTopics[topic]
+		fanoutOnly := t != nil && t.fanoutOnly
 
-		ok := okSubs || okRelays
+		ok := (okSubs && !fanoutOnly) || okRelays
 
 		if (ok && sub) || (!ok && !sub) {
 			p.doAnnounceRetry(pid, topic, sub)
